@@ -622,12 +622,13 @@ def lean_spec(ctx, t, op, o):
     return v.split(" ", 1)[1].split(",")
 
 
-# repair switches of the Lean model (Polys.Repairs: ignoreProj sideRestore copyFrame), one per proposed patch
-# under fixes/ that changes modelled behaviour; all on = the code with the patches.  VERIF_C15_REPAIRS=000 runs the
-# model of the unpatched code (development aid only: the verdict never comes from the model run).
+# repair switches of the Lean model (Polys.Repairs: ignoreProj sideRestore copyFrame).  Default = Polys.Repairs.current, the
+# code as it stands in /repo: ignoreProj and sideRestore are committed, the frame copy (fixes/C15-dataarray-gdf-copy.patch)
+# was not applied, so the model writes data columns into the cached frame like the code does.  VERIF_C15_REPAIRS=111 runs
+# the model of a tree that carries that patch too (development aid only: the verdict never comes from the model run).
 import os as _os
 
-REPAIRS = [int(c) for c in _os.environ.get("VERIF_C15_REPAIRS", "111")]
+REPAIRS = [int(c) for c in _os.environ.get("VERIF_C15_REPAIRS", "110")]
 
 
 def lean_hist(ctx, t, ops):
